@@ -148,6 +148,10 @@ class StallFamilyL2(ScenarioFamily):
         scn["net"]["close_latency"] = 0.0
         vals = {"connect": r.choice([1.1, 0.7]), "read": r.choice([2.2, 0.9]),
                 "write": r.choice([3.3, 1.3]), "pool": 30.0}
+        rz = gen.mk_rng(seed, "c16zero")
+        if rz.random() < 0.3:
+            # a time-out of exactly 0 is a limit (the operation fails at once), not "none"
+            vals[rz.choice(["read", "write", "read", "write", "connect"])] = 0.0
         for c in scn["callers"]:
             for op in c["ops"]:
                 op["timeouts"] = dict(vals)
@@ -158,11 +162,48 @@ class StallFamilyL2(ScenarioFamily):
 
     def post(self, res, scn):
         w = res.world
+        vals = scn["c16"]["vals"]
+        # whichever operation a time-out exception interrupts: its class matches the
+        # operation and it is raised exactly value seconds after the operation started;
+        # an operation whose value is 0 never completes
+        KEY = {"connect": "connect", "tls": "connect", "recv": "read", "send": "write"}
+        CLS = {"connect": "ConnectTimeout", "tls": "ConnectTimeout", "recv": "ReadTimeout",
+               "send": "WriteTimeout"}
+        ops = [e for e in w.ledger.of("op") if e[4] in KEY and e[7] is not None]
+        for out in res.outcomes.values():
+            tok = out["token"]
+            mine = [e for e in ops if e[7] == tok]
+            exc_ev = next((x for x in w.ledger.of("exc") if x[4] == tok), None)
+            for i, e in enumerate(mine):
+                site = e[8]
+                key = KEY[e[4]]
+                if site is not None and str(site).startswith("socks_proxy.py:_init"):
+                    key = "connect"
+                if vals.get(key) == 0.0 and i + 1 < len(mine):
+                    w.violate("C16", "L2:zero-%s-timeout-not-applied" % key,
+                              {"op": e[4], "site": site})
+                    return
+            if exc_ev is not None and str(out.get("exc", "")).endswith("Timeout") \
+                    and out["exc"] != "PoolTimeout" and mine:
+                last = [e for e in mine if e[0] < exc_ev[0]][-1]
+                key = KEY[last[4]]
+                if last[8] is not None and str(last[8]).startswith("socks_proxy.py:_init"):
+                    key = "connect"
+                if out["exc"] != CLS[last[4]]:
+                    w.violate("C16", "L2:%s-interrupted-by-%s" % (last[4], out["exc"]),
+                              {"site": last[8]})
+                    return
+                if abs(exc_ev[1] - (last[1] + vals[key])) > 1e-6:
+                    w.violate("C16", "L2:%s-timeout-at-wrong-instant" % last[4],
+                              {"start": last[1], "value": vals[key], "raised": exc_ev[1]})
+                    return
+        if res.error == "deadlock" and any(v == 0.0 for v in vals.values()):
+            w.violate("C16", "L2:zero-timeout-waits-for-ever", {"blocked": res.blocked})
+            return
         if not w.fault_sites:
             return
         n, fault, opkind, site = w.fault_sites[0]
         ev = next(e for e in w.ledger.of("op") if e[3] == n)
-        vals = scn["c16"]["vals"]
         key = {"connect": "connect", "tls": "connect", "recv": "read", "send": "write"}[opkind]
         if site is not None and site.startswith("socks_proxy.py:_init"):
             key = "connect"
